@@ -111,10 +111,18 @@ func (ct *CSVTable) emitRow(w io.Writer, columnCount int, cells []tabular.Cell) 
 			return err
 		}
 	}
-	if _, err := fmt.Fprint(w, ct.csvEscape(cells[i].String())); err != nil {
-		return err
+	if max > 0 {
+		if _, err := fmt.Fprint(w, ct.csvEscape(cells[i].String())); err != nil {
+			return err
+		}
+		i++
+	} else if columnCount > 0 {
+		// a row with no cells at all: the first padding field has no leading separator
+		if _, err := fmt.Fprint(w, "\"\""); err != nil {
+			return err
+		}
+		i++
 	}
-	i++
 	for ; i < columnCount; i++ {
 		if _, err := fmt.Fprint(w, ct.fieldSeparator, "\"\""); err != nil {
 			return err
